@@ -22,7 +22,6 @@ code -> spec : seeded random long histories (requests made after many others, in
 """
 import json
 import os
-import random
 import shutil
 
 import tlc
@@ -559,7 +558,7 @@ def run_c15(ctx):
         cfg = tlc.write_cfg(os.path.join(wd, 'sim.cfg'), constants=big, invariants=HIST_INVS, deadlock=False)
         prefix = os.path.join(wd, 'sim', 'h')
         os.makedirs(os.path.dirname(prefix))
-        nsim = 800
+        nsim = 300
         res = tlc.run(SPEC, cfg, simulate=dict(num=nsim, file=prefix), depth=7, seed=ctx.seed + 1, workers=1, coverage=False, timeout=2400)
         ctx.tlc(res, 'Factory/simulate')
         if res.violation:
@@ -584,7 +583,8 @@ def run_c15(ctx):
         ctx.drift('FactoryImpl.tla (caches keyed by the generated name) is refuted by TLC but the implementation does not reproduce '
                   'the counterexamples any more (%s): the implementation-level model is out of date' % reproduced)
     # the repaired cache (explicit error on a conflicting hit) refines Factory
-    consts = _consts(funcs=['f1', 'f2', 'lam1'], bases=['t1', 't2'], facs=['F1', 'F2'], depsets=((), ('t1',)), maxlen=ctx.pick(2, 3), allowerror=True)
+    consts = _consts(funcs=ctx.pick(['f1', 'f2', 'lam1'], ['f1', 'f2', 'lam1', 'lam2', 'g']), bases=['t1', 't2'], facs=['F1', 'F2'], depsets=((), ('t1',)),
+                     maxlen=2, allowerror=True)
     consts['ErrorOnConflict'] = True
     cfg = tlc.write_cfg(os.path.join(wd, 'implfix.cfg'), spec='ISpec', constants=consts, invariants=HIST_INVS, properties=['Refines'], deadlock=False)
     res = tlc.run(IMPL, cfg, timeout=1500)
